@@ -9,3 +9,130 @@ package raft
 //@   property C07
 //@   ensures res
 //@   modifies nothing
+
+// ---- assumed: the RPC client, hashicorp/raft and libp2p-raft (ghost counters) ----
+// rpcOK: remote calls that returned nil; commitOK: CommitOp calls that returned nil;
+// addVoterN / removeServerN: membership changes submitted to hashicorp/raft
+//@ ghost var rpcN int
+//@ ghost var rpcOK int
+//@ ghost var rpcLastSvc string
+//@ ghost var rpcLastMethod string
+//@ ghost var rpcLastArg any
+//@ ghost var commitOK int
+//@ ghost var addVoterN int
+//@ ghost var removeServerN int
+// leader-side membership operations that returned nil, as counted by their callers
+//@ ghost var raftAddOK int
+//@ ghost var raftRmOK int
+
+//@ extern rpc.Client.CallContext(ctx, dest, svcName, svcMethod, args, reply)
+//@   ensures rpcN == old(rpcN) + 1 && rpcLastSvc == svcName && rpcLastMethod == svcMethod && rpcLastArg == args
+//@   ensures rpcOK == old(rpcOK) + ite(err == nil, 1, 0)
+//@   modifies rpcN, rpcOK, rpcLastSvc, rpcLastMethod, rpcLastArg, *reply
+
+//@ extern rpc.Client.GoContext(ctx, dest, svcName, svcMethod, args, reply, done)
+//@   ensures rpcN == old(rpcN) + 1 && rpcLastSvc == svcName && rpcLastMethod == svcMethod && rpcLastArg == args
+//@   modifies rpcN, rpcLastSvc, rpcLastMethod, rpcLastArg
+
+//@ extern libp2praft.Consensus.CommitOp(op)
+//@   ensures commitOK == old(commitOK) + ite(err == nil, 1, 0)
+//@   modifies commitOK
+
+//@ extern hraft.Raft.AddVoter(id, address, prevIndex, timeout)
+//@   ensures addVoterN == old(addVoterN) + 1
+//@   modifies addVoterN
+
+//@ extern hraft.Raft.RemoveServer(id, prevIndex, timeout)
+//@   ensures removeServerN == old(removeServerN) + 1
+//@   modifies removeServerN
+
+//@ func (cc *Consensus) Leader
+//@   opts trusted
+//@   modifies nothing
+
+//@ func (rw *raftWrapper) WaitForLeader
+//@   opts trusted
+//@   modifies nothing
+
+//@ func (rw *raftWrapper) Peers
+//@   opts trusted
+//@   ensures err != nil ==> res == nil
+//@   modifies nothing
+
+// ---- C01/C17: an operation is acknowledged only after the leader accepted or committed it ----
+//@ func (cc *Consensus) redirectToLeader
+//@   property C01 C17
+//@   requires cc.config.CommitRetries >= 0
+//@   ensures [ack-means-leader-accepted] res1 && err == nil ==> rpcOK > old(rpcOK) && rpcLastSvc == "Consensus" && rpcLastMethod == method && rpcLastArg == arg
+//@   ensures [not-redirected-means-nothing-sent] !res1 ==> rpcOK == old(rpcOK)
+//@   ensures commitOK == old(commitOK) && addVoterN == old(addVoterN) && removeServerN == old(removeServerN)
+//@   loop 1 (for i <= cc.config.CommitRetries)
+//@     invariant i >= 0 && rpcOK == old(rpcOK) && (i == 0 || finalErr != nil)
+//@   modifies rpcN, rpcOK, rpcLastSvc, rpcLastMethod, rpcLastArg
+
+//@ func (cc *Consensus) commit
+//@   property C01
+//@   requires cc.config.CommitRetries >= 0
+//@   ensures [ack-means-committed] err == nil ==> commitOK > old(commitOK) || (rpcOK > old(rpcOK) && rpcLastSvc == "Consensus" && rpcLastMethod == rpcOp && rpcLastArg == redirectArg)
+//@   loop 1 (for i <= cc.config.CommitRetries)
+//@     invariant i >= 0 && rpcOK == old(rpcOK) && commitOK == old(commitOK) && (i == 0 || finalErr != nil)
+//@   modifies rpcN, rpcOK, rpcLastSvc, rpcLastMethod, rpcLastArg, commitOK, heap(LogOp)
+
+//@ func (cc *Consensus) LogPin
+//@   property C01
+//@   requires cc.config.CommitRetries >= 0
+//@   ensures [ack-means-committed] err == nil ==> commitOK > old(commitOK) || (rpcOK > old(rpcOK) && rpcLastSvc == "Consensus" && rpcLastMethod == "LogPin" && rpcLastArg == any(pin))
+//@   modifies rpcN, rpcOK, rpcLastSvc, rpcLastMethod, rpcLastArg, commitOK, heap(LogOp)
+
+//@ func (cc *Consensus) LogUnpin
+//@   property C01
+//@   requires cc.config.CommitRetries >= 0
+//@   ensures [ack-means-committed] err == nil ==> commitOK > old(commitOK) || (rpcOK > old(rpcOK) && rpcLastSvc == "Consensus" && rpcLastMethod == "LogUnpin" && rpcLastArg == any(pin))
+//@   modifies rpcN, rpcOK, rpcLastSvc, rpcLastMethod, rpcLastArg, commitOK, heap(LogOp)
+
+// ---- C17: membership changes ----
+//@ func find
+//@   property C17
+//@   ensures res <==> in(elem, elems(s))
+//@   loop 1 (range s)
+//@     invariant forall j int :: 0 <= j && j < idx1 ==> s[j] != elem
+//@   modifies nothing
+
+// "adding a present peer ... is a harmless no-op"
+//@ func (rw *raftWrapper) AddPeer
+//@   property C17
+//@   ensures [present-is-noop] addVoterN == old(addVoterN) || addVoterN == old(addVoterN) + 1
+//@   ensures removeServerN == old(removeServerN)
+//@   ensures [only-absent-peers-are-added] addVoterN == old(addVoterN) + 1 ==> !in(peer, elems(peers))
+//@   ensures [present-returns-nil] err == nil && addVoterN == old(addVoterN) ==> in(peer, elems(peers))
+//@   counts raftAddOK when err == nil
+//@   modifies addVoterN
+
+// "removing an absent one is a harmless no-op and the last peer cannot be removed"
+//@ func (rw *raftWrapper) RemovePeer
+//@   property C17
+//@   ensures addVoterN == old(addVoterN)
+//@   ensures [only-present-peers-are-removed] removeServerN == old(removeServerN) + 1 ==> in(peer, elems(peers)) && !(len(peers) == 1 && peers[0] == peer)
+//@   ensures [absent-is-noop] removeServerN == old(removeServerN) || removeServerN == old(removeServerN) + 1
+//@   ensures [last-peer-kept] peers != nil && len(peers) == 1 && peers[0] == peer ==> err != nil && removeServerN == old(removeServerN)
+//@   ensures [absent-returns-nil] err == nil && removeServerN == old(removeServerN) ==> !in(peer, elems(peers))
+//@   counts raftRmOK when err == nil
+//@   modifies removeServerN
+
+// nil only after leader-side success or a successful redirect
+//@ func (cc *Consensus) AddPeer
+//@   property C17
+//@   requires cc.config.CommitRetries >= 0
+//@   ensures err == nil ==> (rpcOK > old(rpcOK) && rpcLastMethod == "AddPeer") || raftAddOK > old(raftAddOK)
+//@   loop 1 (for i <= cc.config.CommitRetries)
+//@     invariant i >= 0 && rpcOK == old(rpcOK) && raftAddOK == old(raftAddOK) && (i == 0 || finalErr != nil)
+//@   modifies rpcN, rpcOK, rpcLastSvc, rpcLastMethod, rpcLastArg, raftAddOK, addVoterN
+
+//@ func (cc *Consensus) RmPeer
+//@   property C17
+//@   requires cc.config.CommitRetries >= 0
+//@   ensures err == nil ==> (rpcOK > old(rpcOK) && rpcLastMethod == "RmPeer") || raftRmOK > old(raftRmOK)
+//@   loop 1 (for i <= cc.config.CommitRetries)
+//@     invariant i >= 0 && rpcOK == old(rpcOK) && raftRmOK == old(raftRmOK) && (i == 0 || finalErr != nil)
+//@   modifies rpcN, rpcOK, rpcLastSvc, rpcLastMethod, rpcLastArg, raftRmOK, removeServerN
+
